@@ -244,6 +244,66 @@ func c16Positional(maxFull int) *Scenario {
 					r.Fail("C16.R6", fmt.Sprintf("Positional names %q", nl), "panic: "+p, "")
 				}
 			}
+			// name lists with unnamed positions ("" or "-"): those arguments can only be given by position.
+			// The array must still have exactly n elements, and an object may use only the real names.
+			f3 := mkFunc([]reflect.Type{tCtx, reflect.TypeOf(0), reflect.TypeOf(0), reflect.TypeOf(0)}, []reflect.Type{tErr}, rec)
+			for _, nl := range [][]string{{"-", "b", "c"}, {"a", "", "c"}, {"a", "b", "-"}, {"", "-", "c"}, {"-", "", "-"}} {
+				fi, err := handler.Positional(f3, nl...)
+				if err != nil {
+					continue // refusing such a list outright is within the documentation
+				}
+				h := fi.Wrap()
+				real := ""
+				for _, n := range nl {
+					if n != "" && n != "-" {
+						real = n
+					}
+				}
+				type tc struct {
+					params string
+					ok     bool
+					want   [3]int
+					either bool // not documented: a full-length array for a list with unnamed positions may be refused (it is, at the pinned commit) or must be applied exactly
+				}
+				cases := []tc{{`[10,11,12]`, true, [3]int{10, 11, 12}, true}, {params: `[10,11]`}, {params: `[10]`}, {params: `[]`}, {params: `[10,11,12,13]`},
+					{params: `{"P_1":7}`}, {params: `{"p_1":7}`}, {params: `{"P_2":7}`}, {params: `{"-":7}`}, {params: `{"":7}`}}
+				if real != "" {
+					var w [3]int
+					for i, n := range nl {
+						if n == real {
+							w[i] = 5
+						}
+					}
+					cases = append(cases, tc{params: fmt.Sprintf(`{%q:5}`, real), ok: true, want: w}, tc{params: fmt.Sprintf(`{%q:5,"P_1":1}`, real)})
+				}
+				for _, c := range cases {
+					rec.calls, rec.args = 0, nil
+					var herr error
+					pn := guarded(func() { _, herr = h(context.Background(), mkRequest(c.params)) })
+					r.Calls(1)
+					r.Case(fmt.Sprintf("pos/unnamed/%v", c.ok), true)
+					desc := fmt.Sprintf("Positional(func(ctx,int,int,int) error, %q) params %s", nl, c.params)
+					Hit("C16.R2")
+					switch {
+					case pn != "":
+						r.Fail("C16.R6", desc, "panic: "+pn, "")
+					case c.either && herr != nil && rec.calls == 0 && jrpc2.ErrorCode(herr) == jrpc2.InvalidParams:
+						// refused as a whole: allowed
+					case c.ok:
+						got := [3]int{}
+						for i := 0; i < 3 && i < len(rec.args); i++ {
+							got[i] = int(rec.args[i].Int())
+						}
+						if herr != nil || rec.calls != 1 || got != c.want {
+							r.Fail("C16.R2", desc, fmt.Sprintf("want one call with %v, got err=%v calls=%d args=%v", c.want, herr, rec.calls, got), "")
+						}
+					default:
+						if herr == nil || rec.calls != 0 || jrpc2.ErrorCode(herr) != jrpc2.InvalidParams {
+							r.Fail("C16.R2", desc, fmt.Sprintf("want InvalidParams without a call (3 positions, unnamed ones cannot be given by key), got err=%v calls=%d", herr, rec.calls), "")
+						}
+					}
+				}
+			}
 			f0 := mkFunc([]reflect.Type{tCtx}, []reflect.Type{tErr}, rec)
 			if fi, err := handler.Positional(f0); err != nil {
 				r.Fail("C16.R1", "Positional(func(ctx) error)", "rejected: "+err.Error(), "")
